@@ -157,6 +157,8 @@ static void child_run(void *ud) {
   heap_set_limit((size_t)64 << 20);
   simfs_reset(1);
   sim_shared->aux[5] = -1;
+  size_t fini_lv[16]; /* ledger level with variant i finalised (the others initialised), on the pristine library */
+  for (int i = 0; i < m4sim_nlibs && i < 16; i++) { const lib_t *Li = m4sim_libs[i]; Li->m4ri_mmc_cleanup(); Li->m4ri_fini(); fini_lv[i] = heap_live_count(); Li->m4ri_init(); }
   size_t live0 = heap_live_count();
   dump_from_id = heap_next_id();
   uint64_t dig0 = heap_live_digest();
@@ -270,7 +272,14 @@ static void child_run(void *ud) {
       } else if (!strcmp(mode, "balanced")) { /* everything the calls allocated was released (registers freed first) */
         ctx_free_all(&c);
         c.L->m4ri_mmc_cleanup(); /* blocks parked in the block cache are retained on purpose, not leaked */
-        if (heap_live_count() != live0 || heap_live_digest() != dig0) { set_verdict(VD_LEAK); fprintf(stderr, "ledger error: %zu live library blocks, %zu expected\n", heap_live_count(), live0); heap_iter_live(dump_live, NULL); }
+        int leaked = heap_live_count() != live0 || heap_live_digest() != dig0;
+        if (leaked) { /* what the library keeps for re-use until it is finalised is not a leak: finalise and compare with the pristine level */
+          int li = 0;
+          for (int i = 0; i < m4sim_nlibs && i < 16; i++) if (m4sim_libs[i] == c.L) li = i;
+          c.L->m4ri_fini(); size_t n = heap_live_count(); c.L->m4ri_init();
+          leaked = n != fini_lv[li];
+        }
+        if (leaked) { set_verdict(VD_LEAK); fprintf(stderr, "ledger error: %zu live library blocks, %zu expected\n", heap_live_count(), live0); heap_iter_live(dump_live, NULL); }
       }
       continue;
     }
